@@ -351,11 +351,13 @@ func callSSA(i *interpreter, caller *frame, callpos token.Pos, fn *ssa.Function,
 			}
 		}
 	}
+	if fn.Pkg != nil {
+		i.shared.buildPkg(fn.Pkg)
+	} else if o := fn.Origin(); o != nil && o.Pkg != nil {
+		i.shared.buildPkg(o.Pkg)
+	}
 	if fn.Blocks == nil {
-		if fn.Pkg != nil && fn.Synthetic == "" {
-			i.shared.buildPkg(fn.Pkg)
-		}
-		if fn.Blocks == nil {
+		{
 			panic(unsupported("no code for function: " + name))
 		}
 	}
